@@ -96,15 +96,15 @@ class C04(DocProp):
     def check_code_blocks(self, blocks, got_spans, sub, col):
         """Ground truth from the generator's tree (not from any reading of the input): the code blocks the
         output contains, in order, must have exactly the generated lines."""
-        got = [x[1] for x in got_spans if x[0] == "codeblock-body"]
+        got = [(x[1], x[2] if len(x) > 2 else None) for x in got_spans if x[0] == "codeblock-body"]
         norm = lambda L: [x.rstrip() if not x.strip() else x for x in L]  # noqa: E731  blank lines carry no payload
         want = [norm([ln.rstrip("\n") for ln in b["lines"]]) for b in blocks]
         col.mon("codeblock", len(want))
         if len(got) != len(want):
             col.violation("codeblock", "C04/codeblock/count", sub, {"want_blocks": len(want), "got_blocks": len(got)})
             return
-        for w, g in zip(want, got):
-            gl = norm(g.split("\n")) if g != "" else []
+        for w, (g, nlines) in zip(want, got):
+            gl = norm(g.split("\n")) if (g != "" or nlines) else []
             if gl != w:
                 col.violation("codeblock", "C04/codeblock/lines-differ", sub, {"want": w[:8], "got": gl[:8]})
                 return
